@@ -12,7 +12,7 @@ from __future__ import annotations
 
 import ast
 from fractions import Fraction
-from typing import Any, Dict, List, Optional, Tuple
+from typing import Any, Dict, List, Optional, Tuple, Set
 
 from .model import FuncInfo, Project, unparse
 from .poly import Poly, as_poly, ZERO, ONE
@@ -365,6 +365,12 @@ class KEval:
         S = Summary(func)
         env: Dict[str, Any] = {}
         args = args or {}
+        for a_ in args.values():
+            # the extents of an array argument given with a shape are integers (int(H) is H)
+            for x_ in (a_ if isinstance(a_, tuple) else (a_,)):
+                for e_ in (getattr(x_, "shape", None) or ()) if isinstance(x_, Ref) else ((x_,) if isinstance(a_, tuple) and isinstance(x_, Poly) else ()):
+                    if isinstance(e_, Poly):
+                        INT_SYMS.update(a[1] for a in e_.atoms() if a[0] == "s")
         for p in func.all_params:
             if p in args:
                 env[p] = args[p]
@@ -1290,6 +1296,8 @@ class KEval:
         c = p.const_value()
         if c is not None:
             return Poly.const(int(c))
+        if _int_valued(p):
+            return p
         # int(q / d) and q // d share one canonical form
         d = 1
         for v in p.t.values():
@@ -1297,6 +1305,28 @@ class KEval:
         if d > 1:
             return Poly.fn("fdiv", p * Poly.const(d), Poly.const(d))
         return Poly.fn("int", p)
+
+
+INT_SYMS: Set[str] = set()   # symbols known to be integers: extents of arrays whose shape was given to summarize()
+
+
+def _int_valued(p: Poly) -> bool:
+    """integer coefficients, non-negative powers, and every atom an integer by construction (an array extent, a length, a floor division / int(...) form)"""
+    for mono, coef in p.t.items():
+        if coef.denominator != 1:
+            return False
+        for at, k in mono:
+            if k < 0:
+                return False
+            if at[0] == "s":
+                if not (at[1] in INT_SYMS or ".shape[" in at[1]):
+                    return False
+            elif at[0] == "f":
+                if at[1] not in ("fdiv", "int", "shape", "len", "size", "call:len"):
+                    return False
+            else:
+                return False
+    return True
 
 
 def norm_key(c: Cond):
